@@ -260,6 +260,16 @@ func c07Grammar(thorough bool) []c07Input {
 		}
 		add("data-short", fmt.Sprintf("data packet of %d bytes", 1+n), b)
 	}
+	{
+		full := mkData(9, "evil", "v", "fromsvc", "nosvc", []byte("0123456789"))
+		for n := 1; n <= len(full); n++ {
+			add("data-truncated", fmt.Sprintf("valid data packet truncated to %d bytes", n), full[:n])
+		}
+		fwd := mkData(9, "evil", "g", "fromsvc", "nosvc", []byte("0123456789"))
+		for n := 1; n <= len(fwd); n++ {
+			add("data-truncated", fmt.Sprintf("valid transit packet truncated to %d bytes", n), fwd[:n])
+		}
+	}
 	nodes := []string{"v", "g", "evil", "nobody"}
 	svcs := []string{"ping", "unreach", "nosvc", "", "\xff\xff\xff\xff\xff\xff\xff\xff"}
 	for _, ttl := range []byte{0, 1, 255} {
